@@ -143,6 +143,8 @@ function runShard(info, thorough) {
         const ordered = o.map((i) => items[i])
         jobs.push({ id: jobs.length, files: ordered.filter((x) => x[0] === 'f').map((x) => x[1]), scripts: ordered.filter((x) => x[0] === 's').map((x) => x[1]), want: oi === 0 ? ['groups', 'deps'] : ['groups'], paths: oi === 0 ? [[c.base, c.rel]] : undefined, __c: ci, __o: oi })
       })
+      // the dependency queries name the targets of the references, registered or not: the referring file alone
+      if (c.kind !== 'precedence') jobs.push({ id: jobs.length, files: c.files.filter((f) => f[0] === c.base), scripts: [], want: ['deps'], __c: ci, __o: -1 })
     })
     const res = C.compileBatch(jobs.map((j) => ({ id: j.id, files: j.files, scripts: j.scripts, want: j.want, paths: j.paths })), 1)
     jobs.forEach((j, k) => {
@@ -168,6 +170,15 @@ function runShard(info, thorough) {
       }
       const strict = !c.ref.climbs && !c.ref.empty
       const label = `${c.kind} src="${c.rel}" in "${c.base}"`
+      if (j.__o === -1) {
+        rep.transitions += 1
+        rep.evaluations += 1
+        if (r.panic) { rep.violation(`C13|compiler-panic|${c.kind}`, `the compiler panics on ${label} (referrer alone)`, { engine: 'c13', kind: c.kind, base: c.base, rel: c.rel }); return }
+        const deps = r.deps[c.base]
+        const listed = c.kind === 'wxs' ? deps.scripts : deps.direct
+        if (strict && (listed.length !== 1 || listed[0] !== c.target)) rep.violation(`C13|dependency-list-without-registered-target|${c.kind}`, `${label}, only the referring file added: the dependency query lists ${JSON.stringify(listed)}, the reference resolver gives ${JSON.stringify(c.target)}`, { engine: 'c13', kind: c.kind, base: c.base, rel: c.rel, alone: true })
+        return
+      }
       rep.transitions += 1
       if (r.panic) { rep.violation(`C13|compiler-panic|${c.kind}`, `the compiler panics on ${label}`, { engine: 'c13', kind: c.kind, base: c.base, rel: c.rel }); return }
       if (j.__o === 0) {
@@ -225,6 +236,11 @@ function replayOne(rec) {
   }
   const sv = 0
   const c = buildCase(rec.kind, rec.base, rec.rel, sv)
+  if (rec.alone) {
+    const r0 = C.compileBatch([{ id: 0, files: c.files.filter((f) => f[0] === c.base), scripts: [], want: ['deps'] }], 1)[0]
+    const l0 = rec.kind === 'wxs' ? r0.deps[c.base].scripts : r0.deps[c.base].direct
+    return { deterministic: true, failure: l0.length === 1 && l0[0] === c.target ? null : 'dependency list ' + JSON.stringify(l0) + ' vs ' + c.target }
+  }
   const r = C.compileBatch([{ id: 0, files: c.files, scripts: c.scripts, want: ['groups', 'deps'] }], 1)[0]
   const out = []
   const strict = !c.ref.climbs && !c.ref.empty
